@@ -444,6 +444,19 @@ example : (run cfgC (init cfgC) [
 
 example : cfgA.members.Nodup ∧ cfgB.members.Nodup ∧ cfgC.members.Nodup := by decide
 
+/-- non-vacuity, combined layout: a generated `write_i(5)` — another thread assigns `p = 9` between the read of the cached
+struct and `write_<struct>` (lost: the struct written was built from the older value), and the whole struct between
+`read_<struct>` and the update of the member (kept, with the value `read_<struct>` returned for `i` on top); then a generated
+`read_d` with assignments before each of its two steps -/
+example : (orun cfgA (init cfgA) [
+      .writeMemberO "i" 5 .retNone (.ok [("p", 9), ("i", 4), ("d", 0)]) (.fail .key)
+        [[], [.assignMember "p" 9], [], [.assignStruct [("p", 1), ("i", 1), ("d", 1)]]],
+      .readMemberO "d" (.ok [("p", 2), ("i", 2), ("d", 2)]) [[.assignMember "d" 7], [.assignMember "i" 8]]]).map
+        (fun s => (s.struct, s.mem, s.ok)) =
+    [([("p", 1), ("i", 4), ("d", 1)], [("p", 1), ("i", 4), ("d", 1)], true),
+     ([("p", 2), ("i", 8), ("d", 2)], [("p", 2), ("i", 8), ("d", 2)], true)] := by decide
+
+
 /-- non-vacuity, unchanged updates omitted (per-member layout): a struct read that finds the values the parameters
 already have sends nothing at all; one that finds a new `p` updates that member and then the struct, whose callback leaves
 the unchanged members alone; after a failed read of `i` errors are pending on `i` and on the struct, and the next update of
